@@ -421,12 +421,36 @@ pub fn assemble(r: &mut Rng, max_plain: usize, max_streams: usize) -> GenFile {
     let mut recipe = format!("junk={} ", if hostile { "hostile" } else { "clean" });
     let mut embedded = vec![];
     let pre = *r.pick(&[0usize, 0, 3, 40, 700, 4096]);
-    let pre = r.usize_below(pre + 1);
+    let mut pre = r.usize_below(pre + 1);
+    // directed alignments: the first wrapper (or, without one, the end of the file) lands on or next to a
+    // multiple of 64 KiB, the granularity of the scanner's and the container's copy buffers
+    let aligned = r.chance(1, 8);
+    if aligned {
+        let k = 1 + r.usize_below(2);
+        pre = k * 65536 + 2 - r.usize_below(11);
+        recipe.push_str(&format!("pre={} ", pre));
+    }
     bytes.extend(junk(r, pre, hostile));
     for _ in 0..n {
-        let s = match streams::any_stream(r, max_plain, 3) {
-            Some(s) => s,
-            None => continue,
+        let s = if max_plain >= 16000 && r.chance(1, 20) {
+            // one of the hand-built pathological-but-valid shapes (chain depth around 4096, maximal
+            // distances, > 65535 tokens or copies of one symbol in a block, ...), checked by zlib's inflate
+            let idx = r.next();
+            let (name, d, p) = crate::special::shape(idx, r);
+            match crate::comp::zlib_inflate_raw(&d, p.len() + 1024) {
+                Some((pp, used)) if pp == p && used == d.len() => Stream {
+                    source: 4,
+                    recipe: format!("shape: {}", name),
+                    bytes: d,
+                    plain: p,
+                },
+                _ => continue,
+            }
+        } else {
+            match streams::any_stream(r, max_plain, 3) {
+                Some(s) => s,
+                None => continue,
+            }
         };
         let w = r.below(4) as u8;
         if w == 3 && bytes.len() < 4 {
@@ -446,7 +470,12 @@ pub fn assemble(r: &mut Rng, max_plain: usize, max_streams: usize) -> GenFile {
         });
         bytes.extend(wb);
         let gap = *r.pick(&[0usize, 0, 1, 9, 100, 2000]);
-        let gap = r.usize_below(gap + 1);
+        let mut gap = r.usize_below(gap + 1);
+        if r.chance(1, 12) {
+            // the literal run behind a stream (trailer + gap + next header) an exact multiple of 64 KiB or next to one
+            gap = (1 + r.usize_below(2)) * 65536 + 2 - r.usize_below(16);
+            recipe.push_str(&format!("gap={} ", gap));
+        }
         bytes.extend(junk(r, gap, hostile));
     }
     GenFile {
